@@ -119,6 +119,41 @@ func conjuncts(t Term) []Term {
 	if t == "true" {
 		return nil
 	}
+	if strings.HasPrefix(t, "(forall (") {
+		// forall x. G => (A and B)  ==  (forall x. G => A) and (forall x. G => B): one goal / fact per
+		// conjunct (the solvers decide the parts in a fraction of the time they need for the whole)
+		if parts := splitTop(t); len(parts) == 3 {
+			binders, body := parts[1], parts[2]
+			attrs := ""
+			inner := body
+			if strings.HasPrefix(body, "(! ") {
+				bp := splitTop(body)
+				inner = bp[1]
+				attrs = " " + strings.Join(bp[2:], " ")
+			}
+			guard := ""
+			concl := inner
+			if strings.HasPrefix(inner, "(=> ") {
+				if ip := splitTop(inner); len(ip) == 3 {
+					guard, concl = ip[1], ip[2]
+				}
+			}
+			if cs := conjuncts(concl); len(cs) > 1 {
+				var out []Term
+				for _, c := range cs {
+					b := c
+					if guard != "" {
+						b = "(=> " + guard + " " + c + ")"
+					}
+					if attrs != "" {
+						b = "(! " + b + attrs + ")"
+					}
+					out = append(out, "(forall "+binders+" "+b+")")
+				}
+				return out
+			}
+		}
+	}
 	return []Term{t}
 }
 
@@ -317,7 +352,8 @@ func newSortReg(emit func(string)) *sortReg {
 	// Float64 is a predefined sort of the FloatingPoint theory: (_ FloatingPoint 11 53)
 	r.decl(sSlice, "(declare-datatypes ((ys.Slice 0)) (((ys.mkslice (ys.arr Int) (ys.off Int) (ys.len Int) (ys.cap Int)))))")
 	r.decl(sIface, "(declare-datatypes ((ys.Iface 0)) (((ys.mkiface (ys.ityp Int) (ys.ipay Int)))))")
-	r.decl("ys.root", "(declare-fun ys.root (Int) Int)")
+	// the object a reference belongs to: itself for ordinary references (>= 0), the enclosing object for derived ones
+	r.decl("ys.root", "(declare-fun ys.root (Int) Int)\n(assert (forall ((p Int)) (! (=> (>= p 0) (= (ys.root p) p)) :pattern ((ys.root p)))))")
 	r.decl("ys.quot", divAxioms)
 	return r
 }
